@@ -245,6 +245,36 @@ class Srv:
         body = {"settings": self.settings(sc, set_) if set_ > 0 else {}}
         return self.req("POST", "/%s/run-step" % self.uid(i), body)
 
+    def step_lost(self, i, set_, sc, frac):
+        """run-step of i, with the process lost inside the externalisation of the result: at the point where the new state is
+        about to be installed (os.replace / os.rename into the state directory), after `frac` of its text reached the disk.
+        Returns True if the fault could be placed (the adapter installs by rename), False otherwise (nothing was injected)."""
+        class ProcessLost(BaseException):
+            pass
+        fired = []
+        real_replace, real_rename = os.replace, os.rename
+
+        def lost(real, src, dst, *a, **kw):
+            if os.path.abspath(os.path.dirname(str(dst))) == os.path.abspath(self.state_dir) and not fired:
+                fired.append(str(src))
+                if frac != "full":
+                    with open(src, "rb") as f:
+                        data = f.read()
+                    with open(src, "wb") as f:
+                        f.write(data[:0 if frac == "none" else len(data) // 2])
+                raise ProcessLost()
+            return real(src, dst, *a, **kw)
+        os.replace = lambda *a, **kw: lost(real_replace, *a, **kw)
+        os.rename = lambda *a, **kw: lost(real_rename, *a, **kw)
+        try:
+            self.step(i, set_, sc)
+        except ProcessLost:
+            pass
+        finally:
+            os.replace, os.rename = real_replace, real_rename
+        self.crash()
+        return bool(fired)
+
     def steps(self, i, n, set_, sc):
         body = {"numberSteps": n, "settings": self.settings(sc, set_) if set_ > 0 else {}}
         return self.req("POST", "/%s/run-steps" % self.uid(i), body)
